@@ -127,11 +127,12 @@ Proof.
 Qed.
 
 Lemma ensure_field_ext s f s' ids : ensure_field V d s f = OK (s', ids) ->
-  ext s s' /\ (forall id, In id ids -> In id (fc_ids s')) /\ (wf_fc s -> length ids = length (d_inputs d)).
+  ext s s' /\ (forall id, In id ids -> In id (fc_ids s')) /\ (wf_fc s -> length ids = length (d_inputs d)) /\
+  (find_fcache V s f = None -> forall id, In id ids -> hlen s <= id < hlen s').
 Proof.
   unfold ensure_field. destruct (find_fcache V s f) as [ids0|] eqn:Ef.
   - intros H; inversion H; subst. split; [apply ext_refl|]. split; [apply (find_fcache_in _ _ _ Ef)|].
-    intros [_ W2]. apply (W2 _ _ Ef).
+    split; [intros [_ W2]; apply (W2 _ _ Ef) | discriminate].
   - destruct (get_score_all V d f) as [cs|e] eqn:Eg; [|discriminate].
     destruct (alloc_all s (map (fun c => OCube V c) cs)) as [s1 own] eqn:Ea.
     intros H; inversion H; subst; clear H.
@@ -166,7 +167,8 @@ Proof.
            destruct (field_eqb f' f) eqn:Eq.
            ++ inversion Hf'; subst. exact Hlen.
            ++ apply (W2 f' ids'). unfold find_fcache. rewrite <- Fc. exact Hf'.
-    + split; [intros id Hin; unfold fc_ids; cbn; apply in_or_app; left; exact Hin | intros _; exact Hlen].
+    + split; [intros id Hin; unfold fc_ids; cbn; apply in_or_app; left; exact Hin|].
+      split; [intros _; exact Hlen | intros _ id Hin; apply (Hids id Hin)].
 Qed.
 
 (* a per-field step that only extends the state and appends ONE freshly allocated id *)
@@ -216,9 +218,9 @@ Definition fstep (k : nat) (clim : option (list (option V))) (kax : saxis) :=
                   if needs_op then
                     let cl := match clim with Some l => l | None => [] end in
                     let vals := map (fun p : option V * option V => anomaly V vsub vdiv (d_clim_divide d) (fst p) (snd p)) (combine (flatten3 V c) cl) in
-                    let '(st3, nid) := alloc st2 (with_flat V (OCube V c) vals) in OK (st3, out ++ [nid])
+                    let '(st3, nid) := alloc st2 (OArr V (length c) vals) in OK (st3, out ++ [nid])
                   else if true then
-                    let '(st3, nid) := alloc st2 (OCube V c) in OK (st3, out ++ [nid])
+                    let '(st3, nid) := alloc st2 (OArr V (length c) (flatten3 V c)) in OK (st3, out ++ [nid])
                   else OK (st2, out ++ [fid])
               | SAx ax ai =>
                   let flat := slice_of V d (axis_of ax) ai c in
@@ -243,7 +245,7 @@ Proof.
   intros Hk. split; [reflexivity|].
   intros st out f st' out' W H. unfold fstep in H.
   destruct (ensure_field V d st f) as [[st1 ids]|e] eqn:Ee; [|discriminate].
-  destruct (ensure_field_ext _ _ _ _ Ee) as [X1 [Hin Hl]].
+  destruct (ensure_field_ext _ _ _ _ Ee) as [X1 [Hin [Hl _]]].
   set (fid := nth k ids 0) in *.
   set (st2 := match f with FObs => write st1 fid _ | _ => st1 end) in *.
   assert (X2 : ext st1 st2).
@@ -362,15 +364,20 @@ Proof.
       { intros id Hin. destruct (Hnews id Hin) as [R N]. rewrite Hl, (fc_ids_eq _ _ Hf). split; [lia | exact N]. }
       destruct cur as [|id0 cur'].
       * cbv zeta iota beta in H. inversion H; subst. apply (finish s sw rq [] (conj W (conj Sl Sd)) X0w). intros id [].
-      * destruct (read sw id0) as [[|pl c]|l] eqn:Er.
-        -- destruct (alloc_all sw (map (fun _ : nat => OFlat V [None]) (id0 :: cur'))) as [st ids0] eqn:Ea.
-           cbv zeta iota beta in H. inversion H; subst.
-           destruct (alloc_all_spec _ _ _ _ Ea) as (Xa & La & _ & Ra & Fa).
-           apply (finish s st rq ids (conj W (conj Sl Sd)) (ext_trans _ _ _ X0w Xa)).
-           intros id Hin. specialize (Ra id Hin). pose proof (e_len _ _ X0w). split; [lia|].
-           rewrite (fc_ids_eq _ _ Fa). intros Hc. destruct (e_wf _ _ X0w W) as [Wa _]. specialize (Wa id Hc). lia.
-        -- cbv zeta iota beta in H. inversion H; subst. apply (finish s sw rq (id0 :: cur') (conj W (conj Sl Sd)) X0w Hcur).
-        -- cbv zeta iota beta in H. inversion H; subst. apply (finish s sw rq (id0 :: cur') (conj W (conj Sl Sd)) X0w Hcur).
+      * assert (Hempty : forall st ids0, alloc_all sw (map (fun _ : nat => OFlat V [None]) (id0 :: cur')) = (st, ids0) ->
+                  s' = {| DataState.heap := heap st; DataState.fcache := fcache st; DataState.scache := (rq, ids0) :: scache st |} -> ids = ids0 ->
+                  inv s' /\ (forall id, In id (sc_ids s) -> read s' id = read s id) /\
+                  (forall id, In id (sc_ids s) -> In id (sc_ids s')) /\ (forall id, In id ids -> In id (sc_ids s'))).
+        { intros st ids0 Ea -> ->.
+          destruct (alloc_all_spec _ _ _ _ Ea) as (Xa & La & _ & Ra & Fa).
+          apply (finish s st rq ids0 (conj W (conj Sl Sd)) (ext_trans _ _ _ X0w Xa)).
+          intros id Hin. specialize (Ra id Hin). pose proof (e_len _ _ X0w). split; [lia|].
+          rewrite (fc_ids_eq _ _ Fa). intros Hc. destruct (e_wf _ _ X0w W) as [Wa _]. specialize (Wa id Hc). lia. }
+        destruct (alloc_all sw (map (fun _ : nat => OFlat V [None]) (id0 :: cur'))) as [st ids0] eqn:Ea.
+        destruct (read sw id0) as [[|pl c]|l|[|n] l] eqn:Er; cbv zeta iota beta in H.
+        all: inversion H; subst.
+        all: first [ apply (Hempty _ _ eq_refl); reflexivity
+                | apply (finish s sw rq (id0 :: cur') (conj W (conj Sl Sd)) X0w Hcur) ].
     + (* a slice: the answer is a set of brand-new flat objects *)
       match type of H with context [alloc_all s2 ?os] => destruct (alloc_all s2 os) as [s3 outids] eqn:Ea end.
       inversion H; subst.
